@@ -38,7 +38,7 @@ DWellFormed(d) ==
                     /\ \A i, j \in 1..Len(d.ks) : i # j => d.ks[i] # d.ks[j]
   /\ d.k \in {"arr", "obj"} => \A i \in 1..Len(d.l) : DWellFormed(d.l[i])
 DDepth(d) == IF d.k \notin {"arr", "obj"} THEN 0
-             ELSE 1 + (LET F[i \in 0..Len(d.l)] == IF i = 0 THEN 0 ELSE LET x == DDepth(d.l[i]) IN IF x > F[i - 1] THEN x ELSE F[i - 1] IN F[Len(d.l)])
+             ELSE LET ds == {DDepth(d.l[i]) : i \in 1..Len(d.l)} \cup {0} IN 1 + (CHOOSE x \in ds : \A y \in ds : y <= x)
 
 \* ---------------------------------------------------------------- equality of a Lua value and a datum
 \* Numbers: bit-for-bit the nearest double, with two documented relaxations:
